@@ -16,7 +16,7 @@ Inductive diag :=
 | DBadMsgKind | DBadReplyOn | DBadMsgAttrKind | DBadOverrideKind | DBadDataFlag | DDataInstantiateRaw
 | DBadPayload | DBadFeature | DAttrOnStructMsg | DMalformed (what : string)
 | DNoNew | DNewHasParams | DNoInstantiate | DManyStructMsgs | DSvAttrOnSelfOrCtx | DBadReturnType
-| DIfaceGenerics | DIfaceNoError | DIfaceInstantiate | DIfaceMigrate.
+| DIfaceGenerics | DIfaceNoError | DIfaceInstantiate | DIfaceMigrate | DIfaceAssocUnbounded.
 
 Record msg_attr := { ma_kind : kind; ma_resp : option string; ma_handlers : list string; ma_reply_on : reply_on }.
 Record messages_attr := { ms_module : list string; ms_variant : string; ms_custom_msg : bool; ms_custom_query : bool }.
@@ -508,6 +508,9 @@ Definition expand_iface (i : iface) : iface_out :=
      io_diags :=
        (match i_generics i with [] => [] | _ => [DIfaceGenerics] end)
        ++ (if mem "Error" (map fst (i_assoc i)) then [] else [DIfaceNoError])
+       (* AssociatedTypes::as_where_predicates: `parse_quote!{ #name #colon #bounds }` panics on `type T;` *)
+       ++ (if existsb (fun p : string * list ty => negb (fst p =? "Error") && match snd p with [] => true | _ => false end)
+                      (i_assoc i) then [DIfaceAssocUnbounded] else [])
        ++ p_diags it ++ vs_diags (mk KExec) ++ vs_diags (mk KQuery) ++ vs_diags (mk KSudo)
        ++ (match vs_list inst with [] => [] | _ => [DIfaceInstantiate] end)
        ++ (match vs_list migr with [] => [] | _ => [DIfaceMigrate] end) |}.
